@@ -14,6 +14,7 @@ import CvDriver.C01
 import CvDriver.C06b
 import CvDriver.C19b
 import CvDriver.C14b
+import CvDriver.C08b
 open Drv
 
 structure DState where
@@ -28,10 +29,11 @@ structure DState where
   ratchet : RatchetSt := {}
   acf : AcfSt := {}
   walkers : WalkersSt := {}
+  vars : VarSt := {}
 
 def stepLine (s : DState) (ln : Nat) (line : String) : DState × List String :=
   let t := toks line
-  let s := { s with geom := geomObserve s.geom t, ratchet := ratchetObserve s.ratchet t, acf := acfObserve s.acf t }
+  let s := { s with geom := geomObserve s.geom t, ratchet := ratchetObserve s.ratchet t, acf := acfObserve s.acf t, vars := varObserve s.vars t }
   match t with
   | [] => (s, [])
   | _ =>
@@ -39,6 +41,9 @@ def stepLine (s : DState) (ln : Nat) (line : String) : DState × List String :=
     | some o => (s, o)
     | none =>
     match c06b s.ratchet ln t with
+    | some o => (s, o)
+    | none =>
+    match c08b s.vars ln t with
     | some o => (s, o)
     | none =>
     match c19b s.acf ln t with
